@@ -38,6 +38,9 @@ type c07iPlan struct {
 	// OneK >= 0: `--bind one:accept` and alt-k: change-query(#OneK) - the cursor is moved up first, then the query
 	// leaves exactly that record: fzf accepts it on its own (End is not pressed)
 	OneK int `json:"one_k"`
+	// ResultBind: an action is bound to the result event (posted for every list that arrives - also before
+	// the interface is up under --select-1 / --exit-0)
+	ResultBind bool `json:"result_bind,omitempty"`
 	// LoadAccept: `--multi --bind load:select-all+accept` with a query; the input arrives in pieces while searches
 	// are running. `load` is documented to fire when the input is complete and the list for it is there: every
 	// matching record of the whole input is printed
@@ -215,6 +218,16 @@ func genC07iPlan(r *zsim.Rng) *c07iPlan {
 		if r.Chance(1, 4) {
 			p.Query = "#" + strconv.Itoa(p.NLines+5) // matches nothing
 		}
+		if p.ResultBind = r.Chance(1, 2); p.ResultBind && r.Bool() {
+			// a slow producer: a dozen lists arrive, one after the other, before the decision can be made
+			p.NLines = r.Range(8, 30)
+			p.Query = "#" + strconv.Itoa(p.NLines-1)
+			p.Reads, p.GapsMs = nil, nil
+			for i := 0; i < 40; i++ {
+				p.Reads = append(p.Reads, r.Range(8, 40))
+				p.GapsMs = append(p.GapsMs, []int{150, 300, 400}[r.Intn(3)])
+			}
+		}
 		p.NumCPU = r.Intn(5)
 	}
 	if r.Chance(1, 2) {
@@ -296,6 +309,9 @@ func runC07i(c *runCtx) {
 	}
 	if plan.LoadAccept {
 		add("--bind", "load:select-all+accept")
+	}
+	if plan.ResultBind {
+		add("--bind", "result:ignore")
 	}
 	if plan.OneK >= 0 && plan.End == "one" {
 		add("--bind", "one:accept", "--bind", "alt-k:change-query(#"+strconv.Itoa(plan.OneK)+")")
@@ -457,13 +473,21 @@ func runC07i(c *runCtx) {
 		r.sim.Stop()
 	}
 	commonExitChecks(r)
-	if !r.done || len(c.viol) > 0 {
+	if len(c.viol) > 0 {
 		return
 	}
 	// ---- model of what must have been printed
 	items := display(r)
 	mc := sp.Match
 	results := indicesOf(freshFilter(items, plan.Query, mc))
+	if !r.done {
+		// a session that must end on its own (start-up short cut, load:...+accept) and did not, although the
+		// whole input had been delivered and the harness kept waiting and finally pressed ctrl-c for minutes
+		if r.opts != nil && (plan.Select1 && len(results) == 1 || plan.Exit0 && len(results) == 0 || plan.LoadAccept) && r.inputAtRest() {
+			c.violate("c07i.no_exit", "the session did not end on its own (select-1=%v exit-0=%v load:accept=%v, %d records, %d matching, result event bound=%v)", plan.Select1, plan.Exit0, plan.LoadAccept, len(lines), len(results), plan.ResultBind)
+		}
+		return
+	}
 	out := func(idx int32) string {
 		if plan.AcceptNth != "" {
 			return acceptNthModel(lines[idx], plan.AcceptNth, plan.Delim)
